@@ -123,7 +123,9 @@ func otherPacket(r *rand.Rand) packet.Packet {
 	return p
 }
 
-func (c07) Gen(tier string, seed int64, emit func([]Ev)) {
+func (c07) Gen(tier string, seed int64, emit0 func([]Ev)) {
+	emit, flush := grouper(emit0, "pat")
+	defer flush()
 	r := rand.New(rand.NewSource(seed))
 	reps := 10
 	if tier == "thorough" {
@@ -197,8 +199,11 @@ func c07Observe(e Ev, pat psi.PAT, err error) {
 }
 
 func (c07) Exec(h []Ev) []Ev {
+	var held holder
 	for _, e := range h {
+		e["earlier_same"] = true
 		e["panic"] = guard(func() {
+			defer func() { e["earlier_same"] = held.same() }()
 			switch GS(e["op"]) {
 			case "pat":
 				switch GS(e["carrier"]) {
@@ -207,6 +212,9 @@ func (c07) Exec(h []Ev) []Ev {
 					keep := append([]byte(nil), b...)
 					pat, err := psi.NewPAT(b)
 					c07Observe(e, pat, err)
+					if err == nil && pat != nil {
+						defer held.hold(func() string { t := Ev{}; c07Observe(t, pat, nil); return jsonOf(t) })
+					}
 					if !bytes.Equal(b, keep) {
 						panic("input modified")
 					}
@@ -227,6 +235,9 @@ func (c07) Exec(h []Ev) []Ev {
 					buf.Write(make([]byte, GI(e["tail"])))
 					pat, err := psi.ReadPAT(&buf)
 					c07Observe(e, pat, err)
+					if err == nil && pat != nil {
+						defer held.hold(func() string { t := Ev{}; c07Observe(t, pat, nil); return jsonOf(t) })
+					}
 				}
 			case "ispmt":
 				pat, err := psi.NewPAT(GB(e["bytes"]))
